@@ -240,7 +240,33 @@ CLAIMED["C17"] = dict(
        "empty dictionaries in npz, reserved markers.",
   ref="DESIGN.md section 5 (C17)", engine="tlc-ioformats")
 
+CLAIMED["C18"] = dict(
+  technique="TLA+ model of the documented option table, parser acceptance, "
+            "API keyword acceptance, terminal-over-file precedence and the "
+            "run workflow (CliConfig.tla) checked by TLC + TLC validation of "
+            "real CLI runs compared with the equivalent Python API calls",
+  text="TLC checks, for 1.5 M configurations (<= 2 documented or unknown "
+       "options in the file x <= 1 terminal alias x function x dry-run x "
+       "clean), that every documented option is parsed and accepted "
+       "downstream, unknown options are rejected before anything is computed "
+       "or written, terminal arguments override the file, output keys per "
+       "function, dry-run computes nothing and cache = load + save; the "
+       "option table is re-derived from docs/manual/cli.rst at every run.  "
+       "124 (thorough ~600) runs of the real entry point (every documented "
+       "key alone, pairs, an unknown key per section, every terminal alias "
+       "against its file counterpart, load/save/cache/clean, real forward / "
+       "misfit / gradient runs) are compared with the equivalent API calls "
+       "(saved simulation incl. computational grid, data, misfit, gradient "
+       "bit-wise) and validated by TLC against the model.",
+  note="Trusted: TLC; the harness's own option-value table (one value per "
+       "documented key); options under --load are checked by provenance "
+       "only; the deprecated `expand` is not exercised.",
+  ref="DESIGN.md section 5 (C18)", engine="tlc-cliconfig")
+
 ENGINES = [
+ dict(name="tlc-cliconfig", path="spec/CliConfig.tla",
+      serves_properties=["C18"],
+      kind_free_text="TLA+ spec + TLC exhaustive + TLC trace validation"),
  dict(name="tlc-ioformats", path="spec/IOFormats.tla",
       serves_properties=["C17"],
       kind_free_text="TLA+ spec + TLC exhaustive + TLC trace validation"),
